@@ -625,10 +625,14 @@ pub fn stress_threads(sseed: u64, rounds: u64) -> Report {
     let generation = Arc::new(AtomicU64::new(0));
     let decided = Arc::new(AtomicUsize::new(0));
     let bad_round = Arc::new(AtomicU64::new(0));
+    let stuck = Arc::new(AtomicBool::new(false));
+    let slow = Arc::new(AtomicU64::new(0));
     let started = std::time::Instant::now();
     let mut hs = vec![];
     for t in 0..threads {
         let (svc, st, arrived, generation, decided, bad_round) = (svc.clone(), st.clone(), arrived.clone(), generation.clone(), decided.clone(), bad_round.clone());
+        let stuck = stuck.clone();
+        let slow = slow.clone();
         let handle = rt.handle().clone();
         hs.push(std::thread::spawn(move || {
             let _g = handle.enter();
@@ -637,13 +641,18 @@ pub fn stress_threads(sseed: u64, rounds: u64) -> Report {
             let mut rejected = 0u64;
             let spin = |gen: &AtomicU64, want: u64| {
                 let mut k = 0u64;
+                let t0 = std::time::Instant::now();
                 while gen.load(SeqCst) < want {
                     k += 1;
                     if k % 4096 == 0 {
                         std::thread::yield_now();
+                        if t0.elapsed() > Duration::from_secs(60) {
+                            return false;
+                        }
                     }
                     std::hint::spin_loop();
                 }
+                true
             };
             for round in 1..=rounds {
                 let mut s = svc.clone();
@@ -655,10 +664,14 @@ pub fn stress_threads(sseed: u64, rounds: u64) -> Report {
                     decided.store(0, SeqCst);
                     generation.store(3 * round - 2, SeqCst);
                 } else {
-                    spin(&generation, 3 * round - 2);
+                    if !spin(&generation, 3 * round - 2) {
+                        stuck.store(true, SeqCst);
+                        return rejected;
+                    }
                 }
                 let mut req = Req::new(t as u64, 0, vec![]);
                 req.payload = round;
+                let round_started = std::time::Instant::now();
                 let mut fut = Box::pin(s.call(req));
                 // poll until this call is rejected/finished or is inside the inner service
                 let mut res = None;
@@ -673,9 +686,19 @@ pub fn stress_threads(sseed: u64, rounds: u64) -> Report {
                             if st.entered[t].load(SeqCst) {
                                 break;
                             }
-                            // queued (no wait limit) behind the admitted ones: that is a verdict too
+                            // queued behind the admitted ones: that is a verdict too. With
+                            // reject_when_full the rejection needs a timer tick (about 1 ms); a call
+                            // that is neither rejected nor admitted after far longer than that is
+                            // treated as queued (waiting too long is C07's business, not C01's)
                             waited += 1;
                             if !reject && waited > 200 {
+                                break;
+                            }
+                            if reject && waited % 256 == 0 && round_started.elapsed() > Duration::from_millis(200) {
+                                // does not happen on a bulkhead that rejects: stop the run soon
+                                if slow.fetch_add(1, SeqCst) >= 3 {
+                                    bad_round.compare_exchange(0, u64::MAX, SeqCst, SeqCst).ok();
+                                }
                                 break;
                             }
                             std::hint::spin_loop();
@@ -690,7 +713,10 @@ pub fn stress_threads(sseed: u64, rounds: u64) -> Report {
                     st.released_round.store(round, SeqCst);
                     generation.store(3 * round - 1, SeqCst);
                 } else {
-                    spin(&generation, 3 * round - 1);
+                    if !spin(&generation, 3 * round - 1) {
+                        stuck.store(true, SeqCst);
+                        return rejected;
+                    }
                 }
                 if res.is_none() {
                     let mut k = 0u64;
@@ -717,7 +743,10 @@ pub fn stress_threads(sseed: u64, rounds: u64) -> Report {
                     arrived.store(0, SeqCst);
                     generation.store(3 * round, SeqCst);
                 } else {
-                    spin(&generation, 3 * round);
+                    if !spin(&generation, 3 * round) {
+                        stuck.store(true, SeqCst);
+                        return rejected;
+                    }
                 }
                 if bad_round.load(SeqCst) != 0 {
                     break;
@@ -738,12 +767,17 @@ pub fn stress_threads(sseed: u64, rounds: u64) -> Report {
             format!("threads: {high} calls were inside the inner service at once through a bulkhead with max_concurrent_calls={n} ({}; {threads} threads released together, round {})", if reject { "reject_when_full" } else { "unbounded wait" }, bad_round.load(SeqCst)),
         );
     }
-    if st.inflight.load(SeqCst) != 0 {
+    if stuck.load(SeqCst) {
+        if rep.violations.is_empty() {
+            rep.inconclusive = Some("thread stress: a thread waited 60 s at a barrier (a call never finished)".into());
+        }
+    } else if st.inflight.load(SeqCst) != 0 {
         rep.violate("C01:harness-accounting", format!("threads: in-flight counter ended at {}", st.inflight.load(SeqCst)));
     }
     rep.nontrivial = high >= n as i64 && rejected > 0;
     rep.sig = crate::prng::mix(sseed, high as u64);
     rep.count("thread_rounds", rounds);
+    rep.count("thread_calls_neither_rejected_nor_admitted_within_200ms", slow.load(SeqCst));
     rep.count("thread_calls_admitted", st.admitted_total.load(SeqCst));
     rep.count("thread_calls_rejected_or_queued", rejected);
     rep.max("max_in_flight_threads", high as u64);
